@@ -31,6 +31,11 @@ enum T {
     Fanout { b: Id, c: Id },
     /// replies to every message without changing its state (a stateless responder)
     Echo,
+    /// sends one message to `b` on start and records (state change) whatever it is handed: an actor that both
+    /// sends and receives
+    Relay { b: Id },
+    /// sends the SAME payload twice to `to` on start (two distinct messages of the sender's sequence)
+    Twice { to: Id },
 }
 
 impl Actor for T {
@@ -49,6 +54,13 @@ impl Actor for T {
             o.send(*b, 10);
             o.send(*c, 20);
         }
+        if let T::Relay { b } = self {
+            o.send(*b, 10);
+        }
+        if let T::Twice { to } = self {
+            o.send(*to, 10);
+            o.send(*to, 10);
+        }
         Vec::new()
     }
 
@@ -59,6 +71,9 @@ impl Actor for T {
         }
         if let T::Echo = self {
             _o.send(src, msg + 1);
+        }
+        if let T::Relay { .. } = self {
+            state.to_mut().push((src, msg));
         }
     }
 
@@ -295,6 +310,50 @@ fn extra(ctx: &mut Ctx) {
         let ok = replies1 == vec![(1, 6)] && replies2.is_empty();
         ctx.check(case, "orl-message-handed-over-twice", &["ORL.on_msg.ensures.deliver-state"], ok,
             format!("first delivery replies {:?}, duplicate replies {:?}", replies1, replies2), "one reply Deliver(1,6), then none (duplicate is only acknowledged)".into());
+    }
+    // (3) an actor that both sends and receives: a state-changing hand-over must not forget what it still
+    //     has pending for its own peer
+    let case = "relay:hand-over-keeps-own-pending";
+    if ctx.want(case) {
+        let b = Id::from(1usize);
+        let w = ActorWrapper::with_default_timeout(T::Relay { b });
+        let mut o: Out<W> = Out::new();
+        let s0 = w.on_start(Id::from(S), &mut o);
+        let first = delivers_to(&o, b);
+        let mut st = Cow::Borrowed(&s0);
+        let mut o1: Out<W> = Out::new();
+        w.on_msg(Id::from(S), &mut st, Id::from(2usize), MsgWrapper::Deliver(1, 5), &mut o1);
+        let s1 = st.into_owned();
+        let mut st = Cow::Borrowed(&s1);
+        let mut o2: Out<W> = Out::new();
+        w.on_timeout(Id::from(S), &mut st, &TimerWrapper::Network, &mut o2);
+        let resent = delivers_to(&o2, b);
+        let ok = first == vec![(1, 10)] && resent == vec![(1, 10)] && format!("{:?}", s1).contains("wrapped_state: [(Id(2), 5)]");
+        ctx.check(case, "orl-hand-over-forgets-pending", &["ORL.on_msg.ensures.deliver-state"], ok,
+            format!("sent {:?}; after being handed Deliver(1,5) from Id(2) the state is {:?} and the timeout resends {:?}", first, s1, resent),
+            "Deliver(1,10) is still retransmitted to b until acknowledged".into());
+    }
+    // (4) two messages with the same payload are two messages: both are sent (distinct sequencers) and both handed over
+    let case = "twice:same-payload-sent-and-handed-twice";
+    if ctx.want(case) {
+        let log: Log = Rc::new(RefCell::new(Vec::new()));
+        let w = ActorWrapper::with_default_timeout(T::Twice { to: Id::from(R) });
+        let r = ActorWrapper::with_default_timeout(T::Receiver { log: log.clone() });
+        let mut o: Out<W> = Out::new();
+        let _s0 = w.on_start(Id::from(S), &mut o);
+        let sent = delivers_to(&o, Id::from(R));
+        let mut ro: Out<W> = Out::new();
+        let mut rs = r.on_start(Id::from(R), &mut ro);
+        for (q, m) in sent.clone() {
+            let mut st = Cow::Borrowed(&rs);
+            let mut o1: Out<W> = Out::new();
+            r.on_msg(Id::from(R), &mut st, Id::from(S), MsgWrapper::Deliver(q, m), &mut o1);
+            if let Cow::Owned(n) = st { rs = n; }
+        }
+        let handed: Vec<u64> = log.borrow().iter().map(|p| p.1).collect();
+        let ok = sent == vec![(1, 10), (2, 10)] && handed == vec![10, 10];
+        ctx.check(case, "orl-equal-payload-collapsed", &["ORL.process_output.ensures.out", "ORL.process_output.ensures.state"], ok,
+            format!("sent {:?}, handed {:?}", sent, handed), "sent [(1,10),(2,10)], handed [10,10]".into());
     }
 }
 
